@@ -56,7 +56,7 @@ class FakeTime(types.ModuleType):
 # ---------------------------------------------------------------------------------------------------------------------
 # frames with provenance
 
-CONTENT = ['data', 'raw_bgr', 'raw_rgb', 'raw_gray', 'jpg', 'empty', 'nested', 'tiny']
+CONTENT = ['data', 'raw_bgr', 'raw_rgb', 'raw_gray', 'jpg', 'empty', 'nested', 'tiny', 'big_reused']
 
 
 def token_pixels(tok, shape):
@@ -67,6 +67,12 @@ def token_pixels(tok, shape):
 
 
 _jpg_cache = {}
+
+
+def big_pixels(tok):
+    h = hashlib.sha256(json.dumps([tok['o'], tok['oi'], tok['seq'], tok['tp']]).encode()).digest()
+    row = np.frombuffer((h * 20)[:600], np.uint8)
+    return np.tile(row, 160).reshape(160, 200, 3).copy()
 
 
 def make_frame(tok):
@@ -86,6 +92,9 @@ def make_frame(tok):
         return Frame(token_pixels(tok, (1, 1, 3)).copy(), data, 'BGR')
     if c in ('raw_bgr', 'raw_rgb'):
         return Frame(token_pixels(tok, (6, 8, 3)).copy(), data, 'BGR' if c == 'raw_bgr' else 'RGB')
+    if c == 'big_reused':
+        # >= 64 KiB raw image (pyzmq's zero-copy threshold); the SOURCE filter writes these pixels into a buffer it reuses
+        return Frame(big_pixels(tok), data, 'BGR')
     if c == 'jpg':
         import cv2
         key = (tok['o'], tok['oi'], tok['seq'], tok['tp'])
@@ -175,8 +184,18 @@ def relay_tokens(node_id, inc, beh, tokens_in, n=None):
     return out
 
 
-class Exit0(Exception):
-    pass
+def source_frame(flt, tok):
+    """Frame a source emits for a token. Content class 'big_reused' models a camera-like producer: it renders every frame
+    into one preallocated writable buffer per topic and hands that very buffer to the framework each time."""
+    if tok.get('c') != 'big_reused':
+        return make_frame(tok)
+    from openfilter.filter_runtime.frame import Frame
+    canv = flt.__dict__.setdefault('_canvases', {})
+    buf = canv.get(tok['tp'])
+    if buf is None:
+        buf = canv[tok['tp']] = np.zeros((160, 200, 3), np.uint8)
+    buf[...] = big_pixels(tok)
+    return Frame(buf, dict(tok), 'BGR')
 
 
 def make_filter_classes():
@@ -315,7 +334,7 @@ def make_filter_classes():
             return self._ret(res, min(seqs) if seqs else None)
 
         def _emit(self, toks, seq):
-            return self._ret({t: make_frame(k) for t, k in toks.items()}, seq)
+            return self._ret({t: source_frame(self, k) for t, k in toks.items()}, seq)
 
         def _ret(self, res, seq):
             how = self.vbeh.get('ret', 'dict')
@@ -558,6 +577,18 @@ class World:
         elif k == 'kill_restart':
             self.kill(f['node'])
             self.sim.at(self.sim.now + int(f.get('delay_ms', 0) * MS), ('call', lambda: self.restart(f['node'])))
+        elif k == 'clean_restart':
+            # graceful shutdown (stop event -> clean exit, CLOSE messages go out) followed by a new incarnation
+            p = self.procs.get(f['node'])
+            if p is not None:
+                p.stop_evt.set()
+
+                def again(p=p, node=f['node']):
+                    if p.alive:
+                        self.sim.at(self.sim.now + 50 * MS, ('call', again))
+                    else:
+                        self.restart(node)
+                self.sim.at(self.sim.now + int(f.get('delay_ms', 0) * MS) + 1, ('call', again))
         elif k == 'stop_evt':
             p = self.procs.get(f['node'])
             if p is not None:
